@@ -51,7 +51,7 @@ def series_data(entry, seed, container="series"):
 
 
 def panel_data(entry, seed, container):
-    ncol = 2 if entry.get("multivariate") and entry["name"].startswith("column_ensemble") else 1
+    ncol = E.ncol(entry)
     # classifiers / regressors get a noisy, weakly separable panel so that random choices inside matter
     noisy = entry["kind"] in ("classifier", "regressor")
     X, y = E.make_panel(16 if noisy else 10, ncol, 12 if not noisy else 24, seed, noise=6.0 if noisy else 0.5)
